@@ -299,3 +299,60 @@ example : let e : Confirmed := { sens := 2, wait := 2 }
     r1.1 = .none ∧ r2.1 = .drift ∧ r2.2.ctrs = some [2, 1] := by decide
 
 end MV.Election
+
+namespace MV.Election
+open MV
+
+/-! ### ConfirmedElection over whole call histories -/
+
+/-- verdicts of the implementation model along a history of calls -/
+def Confirmed.verdicts (e : Confirmed) : List (List Drift) → List Drift
+  | [] => []
+  | vs :: rest => (e.call vs).1 :: Confirmed.verdicts (e.call vs).2 rest
+
+/-- verdicts of the documented automaton along a history of calls -/
+def specVerdicts (sens w : Nat) (ms : List Mem) : List (List Drift) → List Drift
+  | [] => []
+  | vs :: rest =>
+    verdictOf sens (specBallots w ms vs) ::
+      specVerdicts sens w (List.zipWith (fun m v => (Mem.step w m v).2) ms vs) rest
+
+theorem call_sens_wait (e : Confirmed) (vs : List Drift) :
+    (e.call vs).2.sens = e.sens ∧ (e.call vs).2.wait = e.wait := by
+  unfold Confirmed.call; exact ⟨rfl, rfl⟩
+
+/-- **Refinement over histories.**  From any state whose counters are within `wait_time`, the
+sequence of verdicts returned over an arbitrary history of calls is the sequence the documented
+per-member automata (abstraction of the counters) produce. -/
+theorem confirmed_history_refines (e : Confirmed) (cs : List Nat) (hc : e.ctrs = some cs)
+    (hcs : ∀ c ∈ cs, c ≤ e.wait) (hist : List (List Drift)) :
+    e.verdicts hist = specVerdicts e.sens e.wait (cs.map (absCtr e.wait)) hist := by
+  induction hist generalizing e cs with
+  | nil => rfl
+  | cons vs rest ih =>
+    obtain ⟨hv, cs', hc', habs⟩ := confirmed_refines e vs cs hc hcs
+    have hle : ∀ c ∈ cs', c ≤ (e.call vs).2.wait := by
+      have := counters_le_wait e vs
+      rw [hc'] at this
+      rw [(call_sens_wait e vs).2]
+      exact this
+    have ih' := ih (e.call vs).2 cs' hc' hle
+    simp only [Confirmed.verdicts, specVerdicts, hv]
+    rw [ih', (call_sens_wait e vs).1, (call_sens_wait e vs).2, habs]
+
+/-- … in particular from the freshly constructed election (first call initialises the counters). -/
+theorem confirmed_history_from_init (sens wait : Nat) (vs : List Drift) (rest : List (List Drift)) :
+    ({ sens := sens, wait := wait } : Confirmed).verdicts (vs :: rest) =
+      specVerdicts sens wait (List.replicate vs.length .idle) (vs :: rest) := by
+  let e0 : Confirmed := { sens := sens, wait := wait, ctrs := some (List.replicate vs.length 0) }
+  have h := confirmed_history_refines e0 (List.replicate vs.length 0) rfl (by simp) (vs :: rest)
+  have habs : (List.replicate vs.length 0).map (absCtr wait) = List.replicate vs.length Mem.idle := by
+    simp [absCtr]
+  simp only [e0, habs] at h
+  rw [← h]
+  simp only [Confirmed.verdicts, Confirmed.call, Option.getD_none, Option.getD_some]
+
+example : ({ sens := 2, wait := 1 } : Confirmed).verdicts [[.drift, .none], [.none, .warning], [.none, .drift]]
+    = [.none, .warning, .none] := by decide
+
+end MV.Election
